@@ -12,7 +12,8 @@ Abstractions
 * SQLite is a parameter: `DbAlg.apply db w` is the result of checkpointing WAL
   segment `w` into database `db`. WAL segments are identified by a `Nat`.
   Theorems assume only `apply (apply d w) w = apply d w` (re-checkpointing the
-  WAL that was just checkpointed changes nothing).
+  WAL that was just checkpointed changes nothing) and `apply d 0 = d` (segment 0 is
+  the zero-length WAL file that opening and closing a database leaves behind).
 * `meta = none` stands for a missing or unparsable meta.json; `crc = some x`
   says the CRC sidecar of data.db was computed over content `x` (`none`: sidecar
   missing or unparsable). WAL sidecars travel with nothing and are not modelled.
@@ -144,7 +145,10 @@ def execOp (A : DbAlg D) (s : FS D) : Op → Except String (FS D)
     | none => .error "crc-nodata"
   | .removeAll n => .ok (s.set n none)
   | .writeMeta n m => .ok (s.modify n fun d => { d with mt := some m })
-  | .verifyDb n => if hasDb s n then .ok s else .error "verify-nodb"
+  | .verifyDb n =>
+    -- db.Open + integrity check + Close leaves a zero-length data.db-wal (segment 0) behind
+    if hasDb s n then .ok (s.modify n fun d => { d with dbWal := some (d.dbWal.getD 0) })
+    else .error "verify-nodb"
   | .rename a b =>
     match s.dir a with
     | some d =>
@@ -374,7 +378,7 @@ def partialOp (A : DbAlg D) (s : FS D) : Op → OpCut → FS D
         else ckptLoopCut A n ex j stage s1
   | .removeAll n, .rm sel => s.modify n sel.apply
   | .writeMeta n _, .trunc => s.modify n fun d => { d with mt := none }
-  | .calcCrc n, .trunc => s.modify n fun d => { d with crc := none }
+  | .calcCrc n, .trunc => s.modify n fun d => if d.db.isSome then { d with crc := none } else d
   | _, _ => s
 
 /-- `k` operations run to completion (stopping at the first error), then the next one is cut -/
